@@ -12,7 +12,7 @@ ID = 'C18'
 LEVEL = 'exploration'
 RULE = ('firmware lengths: all 0..16385 on the 16-page variant (thorough; quick: every length within 3 of a page boundary plus a '
         'stride), boundary lengths {0,1,k*1024-1,k*1024,k*1024+1,size-1,size} + seeded random on the 32/64/128-page variants; x busy '
-        'schedules (0-3 dfuDNBUSY polls per erase / set-address / write, poll delays from {0,1,50,255,65536,2^24-1} ms, also on the '
+        'schedules (0-3 dfuDNBUSY polls per erase / set-address / write, in half of the heavy schedules one operation with 99-1500 of them, poll delays from {0,1,50,255,65536,2^24-1} ms, also on the '
         'completing answer) x device starting idle / in dfuERROR.  One case = one complete run of the tool.  Non-trivial = a run that '
         'sent at least one erase and one write request; distinct by (variant, length, schedule seed, start state).')
 ASSUMPTIONS = ['device model per DFU 1.1 + ST DfuSe (UM0424/AN3156); NOR flash: erase -> 0xFF, program = AND',
@@ -23,9 +23,14 @@ DELAYS = [0, 1, 50, 255, 65536, (1 << 24) - 1]
 
 def schedule(rng, nops, heavy):
     busy, final = {}, {}
+    slow = rng.randrange(nops) if heavy and nops and rng.random() < 0.5 else None
     for k in range(nops):
         n = rng.choice([0, 1, 1, 2, 3]) if heavy or rng.random() < 0.3 else 1
         busy[k] = [rng.choice(DELAYS) for _ in range(n)]
+        if k == slow:
+            # one operation of the run keeps the device busy for a long time: hundreds of dfuDNBUSY answers (a slow or worn flash
+            # sector, a mass erase) - the tool has to keep asking for as long as it takes
+            busy[k] = [rng.choice([0, 0, 1]) for _ in range(rng.choice([99, 100, 101, 150, 257, 400, 1000, 1500]))]
         if rng.random() < 0.2:
             final[k] = rng.choice(DELAYS)
     return busy, final
